@@ -11,7 +11,12 @@ pkg/core/stateroot.Module, on top of the C10 trie model (Model/Mpt.lean: fully e
   updateRefCount, flush             trie.go:414-486
   gc                                stateroot/module.go:301-333
   St, compute, commit, dropBlock    stateroot/module.go:336-360 AddMPTBatch / UpdateCurrentLocal
-Core Lean only.
+  Act, loadNode, applyActs, interleave, computeL, commitL
+                                    trie.go:518-545 lazy loading: getFromStore refreshes the cached
+                                    stored count of an existing refcount-map entry; a block = its events
+                                    interleaved with loads
+Continued in Model/MptRc/GcIndex.lean (tryRunGC) and Model/MptRc/Layered.lean (MemCachedStore layers,
+the node's persist / collect loop). Core Lean only.
 -/
 import NeoModel.Model.Mpt
 import NeoModel.Model.Mpt.Proof
@@ -428,6 +433,22 @@ def trieAfter (t : Node) (ops : List SubOp) : Node :=
     | .del k => delete t k
     | .batch m => putBatch t (mapToBatch m)) t
 
+/-- the events of one sub-operation / the trie after it. -/
+def subEvs (t : Node) : SubOp → Evs
+  | .put k v => putEv t k v
+  | .del k => deleteEv t k
+  | .batch m => putBatchTopEv t (mapToBatch m)
+
+def subTrie (t : Node) : SubOp → Node
+  | .put k v => put t k v
+  | .del k => delete t k
+  | .batch m => putBatch t (mapToBatch m)
+
+/-- all events of a block, in program order. -/
+def blockEvs : Node → List SubOp → Evs
+  | _, [] => []
+  | t, o :: r => subEvs t o ++ blockEvs (subTrie t o) r
+
 /-- `AddMPTBatch`: the changes applied to (a shallow copy of) the trie, then `Flush(index)` into the
 block's cache. `none` = panic in Flush. -/
 def compute (H : Bytes → Bytes) (s : St) (idx : Nat) (ops : List SubOp) : Option (Node × RcMap × Store) :=
@@ -439,6 +460,68 @@ def compute (H : Bytes → Bytes) (s : St) (idx : Nat) (ops : List SubOp) : Opti
 /-- a block that is computed and committed (`UpdateCurrentLocal` + the cache persisted). -/
 def commit (H : Bytes → Bytes) (s : St) (idx : Nat) (ops : List SubOp) : Option St :=
   match compute H s idx ops with
+  | none => none
+  | some (t', m', st') =>
+    some { s with root := t', rc := m', store := st', roots := (idx, rootHash H t') :: s.roots,
+                  hist := (idx, t') :: s.hist }
+
+/-! ### lazy loading (trie.go:518-545)
+
+The live trie of the code is only partly in memory: a position may hold a `HashNode`, which
+`getFromStore` resolves when an operation reaches it. Resolution does not change which
+addRef/removeRef calls are made (they are made on resolved nodes), but it touches the refcount
+map: if the map already has an entry for the hash, the entry's `bytes` and cached stored count
+`initial` are overwritten with what the store holds now (trie.go:534-542). A block is therefore its
+events interleaved with loads; during a block the store is not written (`Flush` comes last). -/
+
+inductive Act where
+  | ev (e : Ev)           -- addRef / removeRef
+  | load (h : Bytes)      -- `t.getFromStore(h)`
+
+/-- trie.go:536-541 `node := t.refcount[h]; if node != nil { node.bytes = data; node.initial = … }`. -/
+def refreshH (h : Bytes) (b : Bytes) (n : Nat) : RcMap → RcMap
+  | [] => []
+  | (k, e) :: r => if k = h then (k, { e with bytes := b, initial := n }) :: r else (k, e) :: refreshH h b n r
+
+/-- trie.go:518-545 `(*Trie).getFromStore(h)` as far as the refcount map is concerned, given the
+record `c` the store returns for `h`: nothing happens if the record is missing, invisible (inactive
+under the GC flag), does not decode, or decodes to a hash / empty node; otherwise, in a counting
+mode, an existing map entry is refreshed from the record (the 4 bytes after the flag are read as the
+count whatever the flag says). -/
+def loadNode (mode : Mode) (c : Option Cell) (m : RcMap) (h : Bytes) : RcMap :=
+  match readCnt mode c with
+  | none => m
+  | some (b, n) =>
+    match decodeTop b with
+    | none => m
+    | some .empty => m
+    | some (.hash _) => m
+    | some _ => if mode.rc then refreshH h b n m else m
+
+def applyAct (H : Bytes → Bytes) (mode : Mode) (get : Bytes → Option Cell) (m : RcMap) : Act → RcMap
+  | .ev e => bump H m e
+  | .load h => loadNode mode (get h) m h
+
+def applyActs (H : Bytes → Bytes) (mode : Mode) (get : Bytes → Option Cell) (m : RcMap) (acts : List Act) : RcMap :=
+  acts.foldl (applyAct H mode get) m
+
+/-- the events `evs` with the loads `ld[i]` inserted before the `i`-th event (and `ld[n]` after the
+last one): every interleaving of a block's events with loads has this form. -/
+def interleave : Evs → List (List Bytes) → List Act
+  | [], ld => (ld.headD []).map .load
+  | e :: r, ld => (ld.headD []).map .load ++ .ev e :: interleave r ld.tail
+
+/-- `AddMPTBatch` on a partly loaded trie: the block's events interleaved with the loads `ld`, read
+from the store as it is before the block's `Flush`. -/
+def computeL (H : Bytes → Bytes) (s : St) (idx : Nat) (ops : List SubOp) (ld : List (List Bytes)) :
+    Option (Node × RcMap × Store) :=
+  let m1 := applyActs H s.mode (sget s.store) s.rc (interleave (blockEvs s.root ops) ld)
+  match flush s.mode idx m1 s.store with
+  | none => none
+  | some (m', st') => some (trieAfter s.root ops, m', st')
+
+def commitL (H : Bytes → Bytes) (s : St) (idx : Nat) (ops : List SubOp) (ld : List (List Bytes)) : Option St :=
+  match computeL H s idx ops ld with
   | none => none
   | some (t', m', st') =>
     some { s with root := t', rc := m', store := st', roots := (idx, rootHash H t') :: s.roots,
@@ -466,11 +549,15 @@ def gcSt (s : St) (g : Nat) : St := { s with store := gc g s.store, gcAt := max 
 
 inductive Op where
   | block (idx : Nat) (ops : List SubOp)   -- a committed block
+  | blockL (idx : Nat) (ops : List SubOp) (ld : List (List Bytes))
+                                           -- a committed block on a partly loaded trie: `ld[i]` = the
+                                           -- hashes resolved from the store before the block's i-th event
   | gc (g : Nat)                           -- `Module.GC(g, store)`
   | reset                                  -- restart / Collapse
 
 def stepOp (H : Bytes → Bytes) (s : St) : Op → Option St
   | .block idx ops => commit H s idx ops
+  | .blockL idx ops ld => commitL H s idx ops ld
   | .gc g => some (gcSt s g)
   | .reset => some (reset s)
 
@@ -485,6 +572,7 @@ def runOps (H : Bytes → Bytes) : St → List Op → Option St
 def Heights : Option Nat → List Op → Prop
   | _, [] => True
   | top, .block idx _ :: r => (∀ h, top = some h → h < idx) ∧ Heights (some idx) r
+  | top, .blockL idx _ _ :: r => (∀ h, top = some h → h < idx) ∧ Heights (some idx) r
   | top, _ :: r => Heights top r
 
 /-! ### state-sync restore (billet.go) -/
